@@ -9,18 +9,24 @@
      d_hold_early_update   (D70)  the new subsystem records last_trig_time as soon as the time_active guard passes, also when a
                                   later guard rejects the occurrence;
      d_stale_active_vars   (D71)  both subsystems: AstEval.eval keeps the previous symbol table when the new one is empty, so
-                                  @state_active goes on seeing the None it was given for an entity that did not exist yet.
+                                  @state_active goes on seeing the None it was given for an entity that did not exist yet;
+     d_hold_per_trigger    (D72)  legacy subsystem: a function that repeats a trigger decorator of one kind gets one TrigInfo per
+                                  repetition, each with its own last_trig_time, so hold_off is measured per trigger decorator
+                                  instead of per function.
    The monotonic clock (hold_off) and the wall clock (time_active) are separate coordinates of an occurrence, as in the code.
    No proofs here (see Proofs/TrigGuards.v). *)
 From PV Require Import Common.Util Gen.GuardConsts Time.Windows.
 
 Local Open Scope Z_scope.
 
-Record deviations := { d_time_active_per_arg : bool; d_hold_early_update : bool; d_stale_active_vars : bool }.
+Record deviations := { d_time_active_per_arg : bool; d_hold_early_update : bool; d_stale_active_vars : bool;
+                       d_hold_per_trigger : bool }.
 Definition all_off (c : deviations) : Prop :=
-  d_time_active_per_arg c = false /\ d_hold_early_update c = false /\ d_stale_active_vars c = false.
+  d_time_active_per_arg c = false /\ d_hold_early_update c = false /\ d_stale_active_vars c = false /\
+  d_hold_per_trigger c = false.
 Definition cfg_off : deviations :=
-  {| d_time_active_per_arg := false; d_hold_early_update := false; d_stale_active_vars := false |}.
+  {| d_time_active_per_arg := false; d_hold_early_update := false; d_stale_active_vars := false;
+     d_hold_per_trigger := false |}.
 
 (* ---------- @state_active ---------- *)
 (* identifiers (entity names, "name.old") are [N] ids; a value is [Some v] or [None] (python None / entity absent) *)
@@ -88,6 +94,7 @@ Inductive okind := KEvent | KState | KTime | KDirect.      (* KDirect: the funct
 
 Record occ := {
   o_kind : okind;
+  o_grp : N;             (* which of the function's trigger decorators of this kind fired (0 = the first) *)
   o_mono : Z;            (* time.monotonic() when the occurrence is processed (ticks of 2^-20 s) *)
   o_wall : Z;            (* occurrence time on the wall clock, microseconds (time triggers: the trigger time) *)
   o_trig : env;          (* the triggering values (state triggers: the variable and its .old) *)
@@ -119,8 +126,8 @@ Fixpoint run {S : Type} (step : S -> occ -> bool * S) (s : S) (occs : list occ) 
   end.
 
 (* ---------- legacy: trigger_watch ---------- *)
-Definition lg_state : Type := option Z * env.           (* last_trig_time, active_expr's symbol table *)
-Definition lg_step (cfg : deviations) (g : guards) (st : Z) (sun : suntab) (s : lg_state) (o : occ) : bool * lg_state :=
+Definition lg_core_state : Type := option Z * env.      (* last_trig_time, active_expr's symbol table *)
+Definition lg_core (cfg : deviations) (g : guards) (st : Z) (sun : suntab) (s : lg_core_state) (o : occ) : bool * lg_core_state :=
   let '(last, tbl) := s in
   if is_direct o then (true, s) else
   let '(ok1, tbl') := match g_sa g with Some e => sa_check cfg e tbl o | None => (true, tbl) end in
@@ -133,6 +140,25 @@ Definition lg_step (cfg : deviations) (g : guards) (st : Z) (sun : suntab) (s : 
   | Some n, Some l => if cmpZ lg_hold_cmp (o_mono o) (l + n) then (false, (last, tbl')) else (true, (Some (o_mono o), tbl'))
   | _, _ => (true, (Some (o_mono o), tbl'))
   end.
+
+(* EvalFunc.trigger_init builds one TrigInfo per repetition of a trigger decorator (the j-th state, time, event ...
+   decorators share the j-th TrigInfo), all with the same guards.  State: the function-wide reference a conformant
+   hold_off uses, and per TrigInfo its own last_trig_time and symbol table. *)
+Definition amap (A : Type) : Type := list (N * A).
+Fixpoint aget {A} (m : amap A) (k : N) : option A :=
+  match m with
+  | [] => None
+  | (k', v) :: r => if N.eqb k k' then Some v else aget r k
+  end.
+Definition lg_state : Type := option Z * amap (option Z) * amap env.
+Definition lg_step (cfg : deviations) (g : guards) (st : Z) (sun : suntab) (s : lg_state) (o : occ) : bool * lg_state :=
+  if is_direct o then (true, s) else
+  let '(glast, plast, tbls) := s in
+  let k := o_grp o in
+  let last := if d_hold_per_trigger cfg then match aget plast k with Some l => l | None => None end else glast in
+  let tbl := match aget tbls k with Some t => t | None => [] end in
+  let '(a, (last', tbl')) := lg_core cfg g st sun (last, tbl) o in
+  (a, (last', (k, last') :: plast, (k, tbl') :: tbls)).
 
 (* ---------- new: FunctionDecoratorManager.dispatch ---------- *)
 Inductive handler := HSa (e : sexpr) | HTa (specs : list sspec) (hold : option Z).
@@ -181,7 +207,7 @@ Definition nw_step (cfg : deviations) (g : guards) (st : Z) (sun : suntab) (s : 
   if ok then (true, s1) else (false, if d_hold_early_update cfg then s1 else (fst s, snd s1)).
 
 Definition accepted_legacy (cfg : deviations) (g : guards) (st : Z) (sun : suntab) (occs : list occ) : list bool :=
-  run (lg_step cfg g st sun) (None, []) occs.
+  run (lg_step cfg g st sun) (None, [], []) occs.
 Definition accepted_new (cfg : deviations) (g : guards) (st : Z) (sun : suntab) (occs : list occ) : list bool :=
   run (nw_step cfg g st sun) (0, []) occs.
 Definition accepted_model (legacy : bool) (cfg : deviations) (g : guards) (st : Z) (sun : suntab) (occs : list occ) : list bool :=
